@@ -58,6 +58,9 @@ def bounds(tier):
 def units(tier, seed):
   b = bounds(tier)
   sigs = S.all_sigs(b['max_po'], b['max_pk'], b['max_ko'])
+  if b['max_po'] < 2:
+    # two positional-only parameters (gaps between them), without ko params
+    sigs += [s_ for s_ in S.all_sigs(2, 1, 0) if s_[0] == 2]
   sigs.sort(key=lambda s: -(s[0] + s[1] + len(s[4]) + s[3] + s[5]))
   return [list(s[:4]) + [list(s[4]), s[5]] for s in sigs]
 
@@ -88,10 +91,41 @@ def nestings():
   }
 
 
+class _Decoy:
+  """An unhashable callable whose signature differs from every vfx one."""
+  __hash__ = None
+
+  def __eq__(self, other):
+    return self is other
+
+  def __call__(self, only_decoy_parameter=0):
+    return vfx.rec('decoy', locals())
+
+
+_UNHASHABLE = {}
+
+
+def unhashable_instance(sig):
+  """A fresh unhashable callable instance for `sig`. Before it is created a
+  decoy instance of another class is configured and dropped, so that an
+  id-keyed cache that does not pin its key sees the address again."""
+  cls = _UNHASHABLE.get(sig)
+  if cls is None:
+    base = type(S.inst(sig))
+    cls = type('U' + base.__name__, (base,),
+               {'__hash__': None, '__eq__': lambda self, other: self is other})
+    _UNHASHABLE[sig] = cls
+  d = _Decoy()
+  fdl.Config(d)
+  del d
+  return cls()
+
+
 def flavours(sig):
   out = [('fn', S.fn(sig)), ('cls', S.cls(sig)), ('classmethod',
                                                    S.classmeth(sig)),
-         ('instance', S.inst(sig)), ('partialobj', S.partial_of(sig))]
+         ('instance', S.inst(sig)), ('partialobj', S.partial_of(sig)),
+         ('unhashable_instance', None)]
   po, pk, nd, var, ko, kw = sig
   if po == 0 and not var and not kw:
     out.append(('dataclass', S.dc(sig)))
@@ -121,6 +155,7 @@ def model_states(sig, b, mode='tokens'):
         extras = [None]
         if m.has_kw:
           extras.append('x1')
+          extras.append('x2+x1')      # two extras, set in this order
           # a **kwargs entry named like a positional-only / *args parameter
           if m.po_names:
             extras.append(m.po_names[0])
@@ -143,7 +178,10 @@ def model_states(sig, b, mode='tokens'):
           for n, on in zip(m.ko_names, kos):
             if on:
               mm.K[n] = val(f'v_{n}')
-          if extra:
+          if extra == 'x2+x1':
+            mm.K['x2'] = val('v_x2')
+            mm.K['x1'] = val('v_x1')
+          elif extra:
             mm.K[extra] = val('v_x1' if extra == 'x1' else 'v_c_' + extra)
           yield mm
 
@@ -294,8 +332,9 @@ def check_case(sig, fname, fn, model, way, nest, res, case):
         f'but build {built[0]}: {built[1]!r}', case)
     return
   if ref[0] == 'ok':
-    c_ref = canon.canon_built(ref[1])
-    c_real = canon.canon_built(built[1])
+    # dict_order: the order of **kwargs entries is observable by the callee
+    c_ref = canon.canon_built(ref[1], dict_order=True)
+    c_real = canon.canon_built(built[1], dict_order=True)
     if c_ref != c_real:
       res.violation(
           f'C01/wrong-binding/{_gapclass(model)}',
@@ -341,6 +380,8 @@ def run_unit(unit, tier, seed):
   states = list(model_states(sig, b))
   for fname, fn in flavours(sig):
     for model in states:
+      if fname == 'unhashable_instance':
+        fn = unhashable_instance(sig)     # fresh object for every state
       res.states += 1
       nset = sum(v is not M.UNSET for v in model.prefix) + len(
           model.V) + len(model.K)
@@ -389,6 +430,8 @@ def replay(case):
   unit = case['sig']
   sig = tuple(unit[:4]) + (tuple(unit[4]), unit[5])
   fn = dict(flavours(sig))[case['flavour']]
+  if fn is None:
+    fn = unhashable_instance(sig)
   st = case['state']
   model = M.Model(sig, (tuple(st[0]), tuple(st[1]),
                         tuple(tuple(kv) for kv in st[2])))
